@@ -3,6 +3,7 @@ package main
 import (
 	"fmt"
 	"go/constant"
+	"go/token"
 	"go/types"
 	"os"
 	"path/filepath"
@@ -213,25 +214,56 @@ func checkC12(c *Check) {
 		if fnPkgPath(f) != repoMod+"/pkg/exporter" {
 			continue
 		}
+		// the table is found by role: a map keyed by the primitive enum that is
+		// filled with constant keys, or a function that switches over a primitive
+		// value with at least five constant cases
+		isPrimEnum := func(t types.Type) bool {
+			n := namedOf(t)
+			return n != nil && n.Obj().Name() == "Type_Primitive" && n.Obj().Pkg() != nil && n.Obj().Pkg().Path() == syslPkg
+		}
+		local := map[int64]bool{}
+		var localAt ssa.Instruction
 		eachInstr(f, func(_ *ssa.BasicBlock, i ssa.Instruction) {
-			st, ok := i.(*ssa.Store)
-			if !ok {
-				return
-			}
-			if _, fld, _, ok := fieldOfAddr(st.Addr); !ok || fld != "primitiveTypesMap" {
-				return
-			}
-			if mm, ok := st.Val.(*ssa.MakeMap); ok {
-				at = mm
-				for _, r := range *mm.Referrers() {
+			switch x := i.(type) {
+			case *ssa.MakeMap:
+				m, ok := x.Type().Underlying().(*types.Map)
+				if !ok || !isPrimEnum(m.Key()) || x.Referrers() == nil {
+					return
+				}
+				n := 0
+				for _, r := range *x.Referrers() {
 					if mu, ok := r.(*ssa.MapUpdate); ok {
 						if k, ok := constInt(mu.Key); ok {
 							keys[k] = true
+							n++
+						}
+					}
+				}
+				if n >= 5 {
+					at = x
+				}
+			case *ssa.BinOp:
+				if x.Op != token.EQL {
+					return
+				}
+				for _, pair := range [][2]ssa.Value{{x.X, x.Y}, {x.Y, x.X}} {
+					if k, ok := constInt(pair[1]); ok && isPrimEnum(pair[0].Type()) {
+						if _, isConst := pair[0].(*ssa.Const); !isConst {
+							local[k] = true
+							if localAt == nil {
+								localAt = x
+							}
 						}
 					}
 				}
 			}
 		})
+		if len(local) >= 5 && at == nil {
+			for k := range local {
+				keys[k] = true
+			}
+			at = localAt
+		}
 	}
 	if at == nil || len(prim) == 0 {
 		c.Undecidedf("KIND-AGREEMENT", "swagger primitive table", "-", "primitive table of the Swagger type exporter not found")
